@@ -128,6 +128,25 @@ func (w *World) verifyFunc(fn *ssa.Function, fc *FuncContract, safetyTags []stri
 		o.Log = append([]string{}, st.log...)
 		x.obls = append(x.obls, o)
 	}
+	// invariants over package-level variables: established by the package initialiser, assumed elsewhere
+	var ginvs []*Clause
+	isInit := fn.Name() == "init" && fn.Signature.Recv() == nil
+	if fn.Pkg != nil {
+		ginvs = w.cs.GlobalInvs[fn.Pkg.Pkg.Path()]
+	} else if fn.Parent() != nil && fn.Parent().Pkg != nil {
+		ginvs = w.cs.GlobalInvs[fn.Parent().Pkg.Pkg.Path()]
+	}
+	if !isInit {
+		for _, gi := range ginvs {
+			genv := &specEnv{w: w, pkg: gi.File, vars: map[string]Val{}, st: st, heap: st.heap}
+			genv.pkg = pkgOfClause(w, gi)
+			g, err := genv.evalBool(gi.E)
+			if err != nil {
+				x.reject("globalinv %q: %v", gi.Src, err)
+			}
+			st.assume(g)
+		}
+	}
 	// object invariants: assumed at entry of `entry` methods
 	var objinvs []*TypeInv
 	var recvVal Val
@@ -168,6 +187,20 @@ func (w *World) verifyFunc(fn *ssa.Function, fc *FuncContract, safetyTags []stri
 				label = fmt.Sprintf("ensures%d", i)
 			}
 			x.oblige(st, "post", "", label, ec.Tags, g, fn.Pos(), ec.Src)
+		}
+		if isInit {
+			for i, gi := range ginvs {
+				genv := &specEnv{w: w, pkg: pkgOfClause(w, gi), vars: map[string]Val{}, st: st, heap: st.heap}
+				g, err := genv.evalBool(gi.E)
+				if err != nil {
+					x.reject("globalinv %q: %v", gi.Src, err)
+				}
+				label := gi.Label
+				if label == "" {
+					label = fmt.Sprintf("globalinv%d", i)
+				}
+				x.oblige(st, "globalinv", "", label, gi.Tags, g, fn.Pos(), gi.Src)
+			}
 		}
 		for i, oi := range objinvs {
 			oenv := &specEnv{w: w, pkg: oi.Pkg, vars: map[string]Val{oi.Var: recvVal}, st: st, heap: st.heap, old: x.initHeap}
@@ -382,6 +415,12 @@ func (w *World) solve(obls []*Obligation, timeoutMs int, thorough bool, stats *S
 	}
 	var pending []*Obligation
 	for _, o := range obls {
+		if o.Solver == "syntactic" && o.Status != "" {
+			if o.Status == "unsat" {
+				stats.PerBackend["syntactic"]++
+			}
+			continue
+		}
 		if o.Status == "trivial" {
 			o.Status = "unsat"
 			o.Solver = "syntactic"
@@ -566,4 +605,12 @@ func (w *World) ifaceAsContract(fc *FuncContract) *FuncContract {
 	d.File = ic.File + "@iface"
 	d.Tags = fc.Tags
 	return &d
+}
+
+func pkgOfClause(w *World, c *Clause) string {
+	rel := strings.TrimPrefix(strings.TrimPrefix(c.File, w.repo), "/")
+	if i := strings.LastIndex(rel, "/"); i >= 0 {
+		return modPath + "/" + rel[:i]
+	}
+	return modPath
 }
